@@ -23,6 +23,12 @@ def run(ctx):
     LK.k6_one_way_table(ctx, K)
     LK.k7_seen_threading(ctx)
     LK.k10_representative_freshness(ctx, K)
+    LK.k10b_no_stale_representative(ctx, K)
+    from ..engines import equivrules as Q
+    Q.k16_connect_cycles(ctx)
+    ctx.floor("K16", 3)
+    LK.k20_smallest_bisection(ctx)
+    ctx.floor("K20", 6)
     LK.k12_union_find_discipline(ctx)
     LK.k18_tree_searcher_purity(ctx)
     ctx.floor("K18", 6)
